@@ -63,21 +63,21 @@ type Failure struct {
 }
 
 type summary struct {
-	Prop        string           `json:"prop"`
-	Shard       int              `json:"shard"`
-	Evaluations int64            `json:"evaluations"`
-	CoreCases   int64            `json:"core_cases"`
-	NonTrivial  int64            `json:"nontrivial"`
-	Labels      map[string]int64 `json:"labels"`
-	Rejected    int64            `json:"rejected"`
-	Gray        int64            `json:"gray"`
-	Excluded    map[string]int64 `json:"excluded_known"`
+	Prop        string            `json:"prop"`
+	Shard       int               `json:"shard"`
+	Evaluations int64             `json:"evaluations"`
+	CoreCases   int64             `json:"core_cases"`
+	NonTrivial  int64             `json:"nontrivial"`
+	Labels      map[string]int64  `json:"labels"`
+	Rejected    int64             `json:"rejected"`
+	Gray        int64             `json:"gray"`
+	Excluded    map[string]int64  `json:"excluded_known"`
 	KnownSeen   map[string]string `json:"known_seen"` // sig -> first message (from core reproducers)
 	Samples     []json.RawMessage `json:"samples"`
-	Failures    []Failure        `json:"failures"`
-	Extra       map[string]any   `json:"extra,omitempty"`
-	RapidDone   bool             `json:"rapid_done"`
-	WallS       float64          `json:"wall_s"`
+	Failures    []Failure         `json:"failures"`
+	Extra       map[string]any    `json:"extra,omitempty"`
+	RapidDone   bool              `json:"rapid_done"`
+	WallS       float64           `json:"wall_s"`
 }
 
 // Rec accumulates what a run covered.
